@@ -460,7 +460,8 @@ func VerifC04EdgeAndBranch() {
 }
 
 // (h) a node with an input key: a value of the wrong dynamic type under that key is a failure in every paradigm;
-//     chunks that lack the key are skipped
+//
+//	chunks that lack the key are skipped
 func VerifC04InputKey() {
 	ctx := context.Background()
 	vcfg("fifo", 1)
